@@ -107,6 +107,10 @@ def abstract(body, mats, vecs, nonneg=("norm", "maxCoeff"), keep_rx=None, report
             if MARK_RX.search(head) or mh.group(1) != "if" or not rest:
                 raise ExtractionBreak("Eigen expression inside a control header: %r" % norm[:100])
             norm_full, norm = norm, rest
+        elif re.match(r"^else\b", norm) and not re.match(r"^else\s*(if\b|\{|$)", norm):
+            # braceless `else <statement>`: keep the keyword, abstract the statement inside braces
+            head, rest = "else", norm[4:].strip()
+            norm_full, norm = norm, rest
         elif re.match(r"^(else|return)\b", norm):
             raise ExtractionBreak("Eigen expression after else/return needs braces or a sidecar rule: %r" % norm[:100])
         chk = _selectors(norm, mats, vecs)
@@ -167,6 +171,8 @@ def abstract(body, mats, vecs, nonneg=("norm", "maxCoeff"), keep_rx=None, report
         else:
             new = "/*E*/ " + " ".join(chk) + " " + eff[:-1]   # the final ';' stays in the body
         new += "\n" * stmt.count("\n")
+        if head.startswith("if") and re.match(r";\s*else\b", body[e:]):
+            body = body[:e] + " " + body[e + 1:]     # `if (c) { ... } ; else` would cut the else off: the braces already end the statement
         body = body[:s] + " " + new + body[e:]
         pos = s + len(new) + 2
         done.append(norm)
